@@ -153,7 +153,12 @@ Theorem C15_aes_result_history_independent :
   forall (m : aes_install) (history : list pdf_kind) (p0 : bool) (k : pdf_kind),
     aes_mode_safe m = true ->
     fst (aes_extract m (aes_docs m p0 history) k) = fst (aes_extract m p0 k).
-Proof. intros m history p0 k H. destruct m; [discriminate| |]; destruct k; reflexivity. Qed.
+Proof.
+  intros m history p0 k H.
+  assert (A : forall h p, aes_docs AtImport p h = p).
+  { induction h as [|x h IH]; intro p; [reflexivity|]. unfold aes_docs in *. cbn [fold_left]. rewrite IH. destruct x; reflexivity. }
+  destruct m; [discriminate| | |rewrite A; reflexivity]; destruct k; reflexivity.
+Qed.
 Print Assumptions C15_aes_result_history_independent.
 
 Example C15_aes_mode_safe_satisfiable : aes_mode_safe OnEncrypted = true /\ aes_mode_safe Eager = true.
@@ -245,3 +250,26 @@ Theorem C15_unclassified_shared_state_refuted :
     read (fun _ _ => 0%nat) (store_run (fun _ _ => 0%nat) (map new_cell kinds) h) i key <> Some 0%nat.
 Proof. exact unclassified_cell_refuted. Qed.
 Print Assumptions C15_unclassified_shared_state_refuted.
+
+(* ---- the one-way AES patch as residue ---- *)
+
+(* installed by extractions (lazily, for encrypted documents, or eagerly) the provider does not come
+   back to its state at import time ... *)
+Theorem C15_aes_residue_by_extraction_refuted :
+  forall m : aes_install, m <> AtImport ->
+    exists docs : list pdf_kind, aes_docs m (aes_initial m) docs <> aes_initial m.
+Proof. intros m H. exists [AesAtOpen]. destruct m; try (vm_compute; discriminate). contradiction. Qed.
+Print Assumptions C15_aes_residue_by_extraction_refuted.
+
+(* ... installed once at import no sequence of extractions changes it, and every document that
+   needs AES later still succeeds *)
+Theorem C15_aes_at_import_residue_free :
+  forall docs : list pdf_kind,
+    aes_docs AtImport (aes_initial AtImport) docs = aes_initial AtImport /\
+    forall k, fst (aes_extract AtImport (aes_docs AtImport (aes_initial AtImport) docs) k) = true.
+Proof.
+  assert (A : forall h p, aes_docs AtImport p h = p).
+  { induction h as [|x h IH]; intro p; [reflexivity|]. unfold aes_docs in *. cbn [fold_left]. rewrite IH. destruct x; reflexivity. }
+  intro docs. split; [apply A|]. intro k. rewrite A. destruct k; reflexivity.
+Qed.
+Print Assumptions C15_aes_at_import_residue_free.
